@@ -53,7 +53,8 @@ type spec struct {
 	paint   int // index in elems of the paint element (-1 none)
 	bStyle  string
 	iStyle  string
-	repl    string // replaced content appended to the paint element
+	repl    string  // replaced content appended to the paint element
+	bi      *biSpec // border-image group (family I): composed into the paint element's style
 	links   []linkV
 	linkPos string // top | bottom | both
 	selfTr  string // extra style on the self link's parent (never a transform in the geometry clause)
@@ -267,6 +268,9 @@ func (s *spec) build() (string, *model) {
 		}
 		if i == s.paint && s.bStyle != "" {
 			st = append(st, s.bStyle)
+		}
+		if i == s.paint && s.bi != nil {
+			st = append(st, s.bi.css())
 		}
 		if e.bmState != "" {
 			st = append(st, "bookmark-state:"+e.bmState)
@@ -504,6 +508,9 @@ var paintStyles = []styleEntry{
 	// border images
 	se("border:4px solid;border-image:linear-gradient(red,blue) 1", false, "border-image", "gradient"),
 	sb("width:0;height:0;border:4px solid;border-image:linear-gradient(red,blue) 1", false, "border-image", "gradient", "zero-size", "tiny-box"),
+	se("border:3px solid;border-image:linear-gradient(red,blue) 0 10 10 10", true, "border-image", "gradient", "bi-zero-slice"),
+	se("border:3px solid;border-image:url(file:///repo/resources_test/pattern.png) 1 0 round", false, "border-image", "raster", "bi-zero-slice"),
+	se("border-style:solid;border-width:3px 0;border-image:linear-gradient(red,blue) 10 fill space", false, "border-image", "gradient", "bi-zero-border-side"),
 	// gradients
 	se("background:linear-gradient(red,blue)", true, "gradient"),
 	se("background:linear-gradient(to top left,red,blue)", false, "gradient"),
@@ -838,4 +845,81 @@ var otherMetaMenu = []metaEntry{
 	{name: "generator", metas: []metaV{{"generator", "generator", "Gen 1.0", "Gen 1.0"}}, core: true},
 	{name: "all", metas: []metaV{{"author", "author", "Me", "Me"}, {"description", "description", "Dd", "Dd"}, {"generator", "generator", " g ", " g "}, {"viewport", "viewport", "zz", "zz"}}, tags: []string{"meta-spaces"}, core: true},
 	{name: "empty-values", metas: []metaV{{"description", "description", "", ""}, {"generator", "generator", "", ""}}, tags: []string{"empty-meta"}},
+}
+
+// ---- border-image group (family I) ------------------------------------------------------------------
+//
+// One symbol per branch of drawBorderImage (html/document/draw.go): every region (4 corners, 4 edges,
+// middle) can have a zero width/height, a zero slice width/height, or a zero intrinsic size; every
+// repeat keyword takes its own branch; outsets and widths are numbers, lengths or auto.
+
+type biSpec struct {
+	source, slice, repeat, width, outset, bw, box string
+}
+
+func defaultBI() *biSpec {
+	return &biSpec{source: "linear-gradient(red,blue)", slice: "10", bw: "3px"}
+}
+
+const svgDataURL = "url(data:image/svg+xml,%3Csvg%20xmlns=%27http://www.w3.org/2000/svg%27%20width=%2730%27%20height=%2730%27%3E%3Crect%20width=%2730%27%20height=%2730%27%20fill=%27red%27/%3E%3C/svg%3E)"
+
+func (b *biSpec) css() string {
+	st := []string{"border-style:solid", "border-color:blue", "border-width:" + b.bw, "border-image-source:" + b.source, "border-image-slice:" + b.slice}
+	if b.repeat != "" {
+		st = append(st, "border-image-repeat:"+b.repeat)
+	}
+	if b.width != "" {
+		st = append(st, "border-image-width:"+b.width)
+	}
+	if b.outset != "" {
+		st = append(st, "border-image-outset:"+b.outset)
+	}
+	if b.box != "" {
+		st = append(st, b.box)
+	}
+	return strings.Join(st, ";")
+}
+
+func biTag(slot, v string) string {
+	return "bi-" + slot + "=" + strings.NewReplacer(" ", "_", ",", "_", ";", "_").Replace(v)
+}
+
+func slotsBI() []slot {
+	mk := func(name string, set func(*biSpec, string), vals []string, extra map[string][]string) slot {
+		sl := slot{name: "bi-" + name}
+		for _, v := range vals {
+			v := v
+			tags := append([]string{biTag(name, v)}, extra[v]...)
+			sl.choices = append(sl.choices, choice{name: "bi-" + name + ":" + v, tags: tags, core: true, apply: func(s *spec) { set(s.bi, v) }})
+		}
+		return sl
+	}
+	out := []slot{
+		{name: "bi-source", choices: []choice{
+			{name: "bi-source:raster", tags: []string{"bi-source=raster", "raster"}, core: true, apply: func(s *spec) { s.bi.source = "url(" + png + ")" }},
+			{name: "bi-source:svg-data-url", tags: []string{"bi-source=svg", "svg", "svg-img"}, core: true, apply: func(s *spec) { s.bi.source = svgDataURL }},
+		}},
+		mk("slice", func(b *biSpec, v string) { b.slice = v }, []string{"0 10 10 10", "10 10 0 10", "10 0 10 10", "0 25%", "100%", "10 fill"},
+			map[string][]string{"0 10 10 10": {"bi-zero-slice"}, "10 10 0 10": {"bi-zero-slice"}, "10 0 10 10": {"bi-zero-slice"}, "0 25%": {"bi-zero-slice"}}),
+		mk("repeat", func(b *biSpec, v string) { b.repeat = v }, []string{"repeat", "round", "space", "round space"}, nil),
+		mk("width", func(b *biSpec, v string) { b.width = v }, []string{"0", "2", "5px 0"}, map[string][]string{"0": {"bi-zero-width"}, "5px 0": {"bi-zero-width"}}),
+		mk("outset", func(b *biSpec, v string) { b.outset = v }, []string{"0", "2", "5px 0"}, nil),
+		mk("border-width", func(b *biSpec, v string) { b.bw = v }, []string{"3px 0", "0 3px"}, map[string][]string{"3px 0": {"bi-zero-border-side"}, "0 3px": {"bi-zero-border-side"}}),
+		mk("box", func(b *biSpec, v string) { b.box = v }, []string{"width:0;height:0", "width:20px;height:20px"}, map[string][]string{"width:0;height:0": {"zero-size", "tiny-box"}}),
+	}
+	var zc []choice
+	for _, z := range zooms {
+		z := z
+		zc = append(zc, choice{name: fmt.Sprint("zoom:", z), tags: []string{"zoom"}, core: true, apply: func(s *spec) { s.zoom = z }})
+	}
+	out = append(out, slot{"zoom", zc})
+	return out
+}
+
+func biSpecBase() *spec {
+	s := defaultSpec()
+	s.family = "I"
+	s.bi = defaultBI()
+	s.tag("border-image")
+	return s
 }
